@@ -24,6 +24,7 @@ type refineCfg struct {
 	PeerPong  bool  `json:"peerpong"`
 	PeerClose bool  `json:"peerclose"`
 	PeerEcho  bool  `json:"peerecho"`
+	CloseNow  bool  `json:"closenow"` // a fifth actor "N" calls CloseNow at a seeded moment (the model's Extra "N")
 }
 
 func runRefine(cfg refineCfg) {
@@ -115,6 +116,9 @@ func runRefine(cfg refineCfg) {
 	actor("P", us(800), func() { c.Ping(bg) })
 	actor("R", us(300), func() { c.Read(bg) })
 	actor("K", us(1500), func() { c.Close(websocket.StatusNormalClosure, "") })
+	if cfg.CloseNow {
+		actor("N", us(2500), func() { c.CloseNow() })
+	}
 	done := make(chan struct{})
 	go func() { wg.Wait(); close(done) }()
 	select {
@@ -144,7 +148,7 @@ func init() {
 		var wg sync.WaitGroup
 		for i := 0; i < *n; i++ {
 			rng := rand.New(rand.NewSource(*seed*7907 + int64(i)))
-			cfg := refineCfg{Seed: *seed*7907 + int64(i), Client: rng.Intn(2) == 0, PeerPong: rng.Intn(4) != 0, PeerClose: rng.Intn(3) == 0, PeerEcho: rng.Intn(8) != 0}
+			cfg := refineCfg{Seed: *seed*7907 + int64(i), Client: rng.Intn(2) == 0, PeerPong: rng.Intn(4) != 0, PeerClose: rng.Intn(3) == 0, PeerEcho: rng.Intn(8) != 0, CloseNow: rng.Intn(3) == 0}
 			sem <- struct{}{}
 			wg.Add(1)
 			go func() {
